@@ -125,7 +125,9 @@ def tp_texts(ctx):
              '下午五点到六点半', '早上8点到上午10点', '11点到下午1点', '下午2点到4点30分20秒', '晚上11点到1点', '上午12点到下午1点', '0点到3点',
              '下午1点到13点', '10到12:30', '十一到十二点', '下午十一到十二点', '早上十到十一点', '9到11:00', '中午十二到一点', '22点到24点',
              '下午5点30分到5点10分', '早上8点到0点', '下午三点一刻到四点三刻', '晚上八点到十点半', '凌晨1点到3点', '晚上6点到9点', '中午11点到1点',
-             '下午2点到4点六十秒', '8点20分10秒到8点20分5秒', '23点到1点', '12点到12点', '傍晚5点到7点', '深夜11点到2点', '午后1点到3点']
+             '下午2点到4点六十秒', '8点20分10秒到8点20分5秒', '23点到1点', '12点到12点', '傍晚5点到7点', '深夜11点到2点', '午后1点到3点',
+             # the boundary of the inference rule: right hour = / just above the left end's low bound
+             '下午3点到12点', '下午3点到13点', '晚上8点到18点', '晚上8点到19点', '中午10点到11点', '中午10点到12点', '下午1点到11点', '晚上7点到17点']
     for _ in range(260 if ctx.thorough else 70):
         ld, rd = r.choice(DESCS), r.choice(DESCS + ['', '', ''])
         h1, h2 = r.randint(0, 24), r.randint(0, 24)
@@ -461,7 +463,9 @@ def holiday_cases(ctx, P, refs):
         return 'ok %s\t%d-%d-%d\t%d-%d-%d' % (x.timex, f.year, f.month, f.day, p.year, p.month, p.day)
     prefixes = ['', '明年', '去年', '今年', '2019年', '19年', '98年', '05年', '1998年', '2100年', '二零一九年', '一九九八年', '九八年', '二零年',
                 '明年的', '2020年的', '两千年']
-    for i, R in enumerate(refs + EDGE):
+    on_the_day = [dt.datetime(2020, 5, 1), dt.datetime(2020, 12, 25), dt.datetime(2020, 10, 1), dt.datetime(2020, 5, 10), dt.datetime(2019, 12, 31),
+                  dt.datetime(2020, 1, 1), dt.datetime(2020, 11, 26), dt.datetime(2020, 5, 10, 0, 0, 1)]
+    for i, R in enumerate(on_the_day + refs + EDGE):
         for j, k in enumerate(keys):
             for q, pre in enumerate(prefixes):
                 if (i + j + q) % (2 if ctx.thorough else 6) and not (i < 3 and q < 5):
@@ -646,6 +650,12 @@ def pipeline(ctx):
     cases = pipeline_cases(ctx)
     res = dtpipe.run([('zh-cn', c[0], c[1]) for c in cases])
     triple_ents, triple_idx = [], []
+    shown = {}
+
+    def report(sig, detail, fi):
+        shown[sig] = shown.get(sig, 0) + 1
+        if shown[sig] <= 4:          # a few concrete inputs per signature are enough
+            ctx.report('property', sig, detail, failing_input=fi, property_fails=True)
     for i, ((text, R, fam, par), got) in enumerate(zip(cases, res)):
         ctx.count('zh2-pipeline:' + fam)
         ent = None
@@ -704,8 +714,7 @@ def pipeline(ctx):
             ok = True
         fi['property_expects'] = want
         if not ok:
-            ctx.report('property', sig, '%r (zh-cn) at %s: got %r, the property states %r' % (text, fi['reference'], vals, want),
-                       failing_input=fi, property_fails=True)
+            report(sig, '%r (zh-cn) at %s: got %r, the property states %r' % (text, fi['reference'], vals, want), fi)
         if any(str(v.get('timex', '')).startswith('(') for v in vals):
             triple_ents.append(ent)
             triple_idx.append((i, fi))
@@ -718,8 +727,7 @@ def pipeline(ctx):
             fam, 'zh-triple-' + fam)
         if fam in ('dtp-x', 'short'):
             continue          # already reported through the stated end points
-        ctx.report('property', sig, '%r (zh-cn) at %s: TIMEX and values disagree: %r' % (cases[i][0], fi['reference'], bad[:2]),
-                   failing_input=fi, property_fails=True)
+        report(sig, '%r (zh-cn) at %s: TIMEX and values disagree: %r' % (cases[i][0], fi['reference'], bad[:2]), fi)
     ctx.extra['zh2_pipeline_cases'] = len(cases)
     if cases:
         ctx.sample({'query': cases[2][0], 'reference': str(cases[2][1]), 'implementation': res[2]})
